@@ -644,7 +644,7 @@ class PageXMLTextRegion(PageXMLDoc):
     @property
     def json(self) -> Dict[str, any]:
         doc_json = super().json
-        if self.text:
+        if self.text is not None:
             doc_json['text'] = self.text
         if self.lines:
             doc_json['lines'] = [line.json for line in self.lines]
